@@ -35,6 +35,44 @@ var callOracle = map[string][]string{
 	"List": {"filelist"}, "Stat": {"filestat"}, "Lstat": {"filestat"}, "Readlink": {"readlink", "filestat"},
 }
 
+// methodHandlers: per method string of Request.call, the handler-interface methods its arm may reach and those it must
+// (callOracle composed with wrapperOracle, from request-interfaces.go): independent of how the arm is cut into functions.
+var methodHandlers = func() map[string]struct{ allowed, required []string } {
+	out := map[string]struct{ allowed, required []string }{
+		"Get":      {[]string{"ReadAt"}, []string{"ReadAt"}},
+		"Put":      {[]string{"WriteAt"}, []string{"WriteAt"}},
+		"Open":     {[]string{"ReadAt", "WriteAt"}, []string{"ReadAt", "WriteAt"}},
+		"List":     {[]string{"ListAt", "LookupGroupName", "LookupUserName"}, []string{"ListAt"}},
+		"Stat":     {[]string{"Filelist", "ListAt", "Lstat"}, []string{"Filelist", "ListAt"}},
+		"Lstat":    {[]string{"Filelist", "ListAt", "Lstat"}, []string{"Filelist", "ListAt"}},
+		"Readlink": {[]string{"Readlink", "Filelist", "ListAt", "Lstat"}, []string{"Readlink"}},
+	}
+	for _, m := range []string{"Setstat", "Rename", "Rmdir", "Mkdir", "Link", "Symlink", "Remove", "PosixRename", "StatVFS"} {
+		out[m] = struct{ allowed, required []string }{[]string{"Filecmd", "PosixRename", "StatVFS"}, []string{"Filecmd"}}
+	}
+	return out
+}()
+
+// handlerInvokesDeep: the handler-interface methods invoked in fn or in module functions it calls statically.
+func handlerInvokesDeep(fn *ssa.Function, depth int, seen map[*ssa.Function]bool) map[string]bool {
+	out := map[string]bool{}
+	if fn == nil || fn.Blocks == nil || depth > 3 || seen[fn] {
+		return out
+	}
+	seen[fn] = true
+	eachInstr(fn, func(in ssa.Instruction) {
+		if m, ok := handlerInvoke(in); ok {
+			out[m] = true
+		}
+		if cc := callOf(in); cc != nil && cc.StaticCallee() != nil && inModule(cc.StaticCallee()) {
+			for m := range handlerInvokesDeep(cc.StaticCallee(), depth+1, seen) {
+				out[m] = true
+			}
+		}
+	})
+	return out
+}
+
 var wrapperOracle = map[string][]string{
 	"fileget":            {"ReadAt"},
 	"fileput":            {"WriteAt"},
@@ -270,10 +308,14 @@ func runC10(c *Ctx) {
 				}
 				seen[x] = true
 				for _, in := range x.Instrs {
+					// the handler methods this arm reaches: in the arm itself and in the module functions it calls
+					// (the wrappers, whatever they are called and whether or not they still are separate functions)
+					if m, ok := handlerInvoke(in); ok {
+						got[s] = append(got[s], m)
+					}
 					if cc := callOf(in); cc != nil && cc.StaticCallee() != nil && inModule(cc.StaticCallee()) {
-						nm := fnName(cc.StaticCallee())
-						if _, isWrapper := wrapperOracle[nm]; isWrapper {
-							got[s] = append(got[s], nm)
+						for m := range handlerInvokesDeep(cc.StaticCallee(), 0, map[*ssa.Function]bool{}) {
+							got[s] = append(got[s], m)
 						}
 					}
 				}
@@ -290,12 +332,36 @@ func runC10(c *Ctx) {
 			}
 			walk(b.Succs[0])
 		}
-		for m, want := range callOracle {
-			g := append([]string{}, got[m]...)
+		for m := range callOracle {
+			have := map[string]bool{}
+			for _, x := range got[m] {
+				have[x] = true
+			}
+			var g []string
+			for x := range have {
+				g = append(g, x)
+			}
 			sort.Strings(g)
-			w := append([]string{}, want...)
-			sort.Strings(w)
-			c.check(strings.Join(g, ",") == strings.Join(w, ","), "R1", "Request.call("+m+")", p.Pos(call.Pos()), "→ "+strings.Join(g, ","), fmt.Sprintf("method %q is routed to %v, documented %v", m, g, w))
+			spec := methodHandlers[m]
+			var extra, lacking []string
+			for _, x := range g {
+				okX := false
+				for _, a := range spec.allowed {
+					if a == x {
+						okX = true
+					}
+				}
+				if !okX {
+					extra = append(extra, x)
+				}
+			}
+			for _, r := range spec.required {
+				if !have[r] {
+					lacking = append(lacking, r)
+				}
+			}
+			c.check(len(extra) == 0 && len(lacking) == 0, "R1", "Request.call("+m+")", p.Pos(call.Pos()), "→ "+strings.Join(g, ","),
+				fmt.Sprintf("method %q reaches the handler methods %v: not allowed %v, missing %v (documented: %v)", m, g, extra, lacking, spec.allowed))
 		}
 		for m := range got {
 			if _, ok := callOracle[m]; !ok {
@@ -331,7 +397,8 @@ func runC10(c *Ctx) {
 	for name, want := range wrapperOracle {
 		fn := p.Func(name)
 		if fn == nil {
-			c.missing("R1", name)
+			// folded into its caller: what it did is judged per method string above
+			c.note("wrapper %s is not a separate function in this tree; its handler calls are checked per method in Request.call", name)
 			continue
 		}
 		c.looked(name)
@@ -867,6 +934,7 @@ func runC10(c *Ctx) {
 // handler for a listing (invokes ListerAt.ListAt):
 //   - no FileInfo value is converted to an empty interface (the []any{fi} of a NAME entry is marshalled later);
 //   - every sshFxpStatResponse built there gets its encoded attributes stored (field attrs) from marshalFileInfo;
+//
 // and the marshaller of sshFxpStatResponse reads the FileInfo only where those bytes are absent.
 func checkRepliesFixedWhenHandlerReturns(c *Ctx, rule string) {
 	p := c.P
